@@ -32,7 +32,7 @@ impl<T: Clone + TTOverwriteable> TranspositionTable<T> {
             generation: 0,
         };
 
-        tt.resize(size_mb);
+        tt.allocate(size_mb);
         tt
     }
 
@@ -50,7 +50,12 @@ impl<T: Clone + TTOverwriteable> TranspositionTable<T> {
             return;
         }
 
-        let number_of_entries = calculate_number_of_entries::<T>(size_mb);
+        self.allocate(size_mb);
+    }
+
+    fn allocate(&mut self, size_mb: usize) {
+        // A table always has at least one slot, so that the smallest sizes stay usable
+        let number_of_entries = calculate_number_of_entries::<T>(size_mb).max(1);
 
         self.data.clear();
         self.data.resize(number_of_entries, None);
